@@ -218,7 +218,7 @@ func schedCase(o *suiteOut, in input, sched string, rd io.Reader, base string, i
 func suiteSched(o *suiteOut, r *rng, tier string, n int) {
 	np := 60
 	if tier == "thorough" {
-		np = 1500
+		np = 400
 	}
 	if n > 0 {
 		np = n
@@ -227,7 +227,7 @@ func suiteSched(o *suiteOut, r *rng, tier string, n int) {
 	// inputs ending in the middle of a look-ahead: the scanner peeks two bytes after '<', '>' and at the
 	// start check, four at `eexec`
 	for _, p := range []string{"1 >x 2", "1 >", "1 > ", ">", "1 <", "1 <<", "1 <~", "(abc", "/", "/a", "1 2 add %", "1 2 add\r", "<41", "<~87cUR", "{ 1", "1 }",
-		"currentfile eexec", "currentfile eexec ab", "currentfile eexec abc", "currentfile eexec \x01\x02\x03", "1 >x 2 >> 3 >"} {
+		"currentfile eexec", "currentfile eexec ab", "currentfile eexec abc", "currentfile eexec \x01\x02\x03", "1 >x 2 >> 3 >", "1 currentfile eexec 982db53daa467azz 99 "} {
 		pool = append(pool, input{"ps", []byte(p), "fixed program"})
 	}
 	for _, p := range []string{"xyz", "x", "", "%", "%!", "%!PS\n1 2", "%x", "% !", "%!\n>x"} {
